@@ -1,4 +1,5 @@
-"""C14-only over-approximation: int(<symbolic str>) raises ValueError or returns an arbitrary int in [-99, 99].
+"""C14-only over-approximation: int(<symbolic str>) raises ValueError (unless the text is an optional sign and decimal
+digits only) or returns an arbitrary int in [-99, 99].
 
 Every real behaviour of int(str) is one of the two, so CONFIRMED under this abstraction implies the
 crash-freedom claim for the real int(); counterexamples are replayed on the real code before they count.
@@ -22,6 +23,12 @@ def _int_abs(*a, **kw):
         n = context_statespace().uniq() if sym else 0
     if sym:
         if proxy_for_type(bool, "int_fails_%s" % n):
+            # refinement: int() never fails on an optional sign followed by decimal digits (Unicode category Nd) only
+            # (texts here are far below the 4300-digit conversion limit)
+            txt = a[0]
+            body = txt[1:] if (len(txt) > 1 and (txt[0] == "-" or txt[0] == "+")) else txt
+            if len(body) > 0 and body.isdecimal():
+                raise IgnoreAttempt("int() cannot fail on decimal digits")
             raise ValueError("invalid literal for int() with base 10 (abstracted)")
         v = proxy_for_type(int, "int_value_%s" % n)
         # formatting an unbounded symbolic int forks once per digit count: keep two digits and a sign
